@@ -138,6 +138,7 @@ func (ex *Exec) assignConv(st *State, v *Val, t types.Type, pos token.Pos) *Val 
 		if bv := ex.boxScalar(v); bv != "" {
 			return &Val{Sh: tsh, T: t, S: bv}
 		}
+		ex.boxedNonZeroCheck(st, v, pos)
 		r := ex.freshVal(t, "boxed")
 		st.assume("(< 0 " + r.S + ")")
 		return r
@@ -278,6 +279,7 @@ func (ex *Exec) havocExpr(st *State, x ast.Expr) {
 }
 
 func (ex *Exec) execStmt(st *State, s ast.Stmt) flow {
+	ex.stNow, ex.stmtPos = st, s.Pos()
 	switch s := s.(type) {
 	case *ast.EmptyStmt:
 		return flow{normal: []*State{st}}
@@ -1426,7 +1428,13 @@ func (ex *Exec) insertOnlyCheck(st *State, l *ast.IndexExpr, m, k *Val) {
 	present := "(select " + m.kid("dom").S + " " + k.S + ")"
 	fresh := "(> " + loc.Ref + " " + ex.eng.alloc0() + ")"
 	ex.insertOnlyN++
-	ex.obligNamed(st, "held", fmt.Sprintf("insert-only(%s)#%d", loc.Path[0], ex.insertOnlyN), l.Pos(), or(not(present), fresh), "a store into "+loc.TKey+"."+loc.Path[0]+" must not replace an entry that is present (entries of this table are only ever added)")
+	cond := or(not(present), fresh)
+	if ex.examined[m.kid("dom").S+"|"+k.S] {
+		// the function has looked this very entry up in this very value of the table - since its lock was last
+		// taken, for a re-acquisition gives the table a new value - so replacing it is a decision made knowing it
+		cond = "true"
+	}
+	ex.obligNamed(st, "held", fmt.Sprintf("insert-only(%s)#%d", loc.Path[0], ex.insertOnlyN), l.Pos(), cond, "a store into "+loc.TKey+"."+loc.Path[0]+" must not replace an entry that may be present without having looked it up since the lock was taken (entries of this table are only ever added)")
 }
 
 
@@ -1444,4 +1452,23 @@ func (ex *Exec) nilResetCheck(st *State, loc *Loc, at ast.Expr, v *Val) {
 	isnil := ex.eqVal(v, nilv)
 	ex.nilResetN++
 	ex.obligNamed(st, "owns", fmt.Sprintf("nil-reset(%s)#%d", loc.Path[0], ex.nilResetN), at.Pos(), implies(eq(v.kid("len").S, "0"), isnil), "when "+loc.TKey+"."+loc.Path[0]+" is emptied it must become nil: its old array has been handed to another goroutine")
+}
+
+// boxedNonZeroCheck: `boxednonzero pkg.Type.Field props P` - a struct value of the type is being converted to an
+// interface with methods (handed on as an error) by code under contract for P: the field must be non-zero.
+func (ex *Exec) boxedNonZeroCheck(st *State, v *Val, pos token.Pos) {
+	if st == nil || ex.specDepth > 0 || len(ex.eng.cs.BoxedNonZero) == 0 || v == nil || v.T == nil || len(v.Kids) == 0 {
+		return
+	}
+	tk := typeKey(v.T)
+	for key, props := range ex.eng.cs.BoxedNonZero {
+		if !strings.HasPrefix(key, tk+".") || !hasProp(props, ex.prop) {
+			continue
+		}
+		f := strings.TrimPrefix(key, tk+".")
+		if k := v.kid(f); k != nil && k.Sh != nil && k.Sh.IsLeaf() && k.Sh.Leaf == "Int" {
+			ex.boxedN++
+			ex.obligNamed(st, "boxed", fmt.Sprintf("boxed-nonzero(%s)#%d", key, ex.boxedN), pos, "(not (= "+k.S+" 0))", "a "+tk+" handed on as an error carries a non-zero "+f+" (whoever reads the zero value takes the error for a success)")
+		}
+	}
 }
